@@ -357,11 +357,18 @@ func RunE1(env *Env, job *E1Job) *E1Res {
 			return
 		}
 		m := model.New(os.Getuid(), os.Getgid(), 0o777)
+		useModel := job.Level != "raw"
+		execModel := func(o ops.Op) string {
+			if !useModel {
+				return ""
+			}
+			return ops.ExecModel(m, o)
+		}
 		for i, o := range job.Setup {
 			ph.Name = fmt.Sprintf("setup[%d] %s", i, o)
 			_, _ = Guard(func() error { return ops.ExecImpl(st, o) })
 			vsync.Quiesce()
-			ops.ExecModel(m, o)
+			execModel(o)
 		}
 		n := len(job.Hist)
 		for i := 0; i < n-1; i++ {
@@ -369,7 +376,7 @@ func RunE1(env *Env, job *E1Job) *E1Res {
 			ph.Name = fmt.Sprintf("prefix[%d] %s", i, o)
 			_, _ = Guard(func() error { return ops.ExecImpl(st, o) })
 			vsync.Quiesce()
-			ops.ExecModel(m, o)
+			execModel(o)
 		}
 		ctx := &stepCtx{env: env, job: job, st: st, viol: viol}
 		if n > 0 {
@@ -391,7 +398,7 @@ func RunE1(env *Env, job *E1Job) *E1Res {
 				viol("C02", "C02|panic|"+ctx.shape, pan)
 				ctx.err = fmt.Errorf("panic: %s", pan)
 			}
-			ctx.reason = ops.ExecModel(m, o)
+			ctx.reason = execModel(o)
 			res.Outcome = errClass(ctx.err)
 			if ctx.err != nil {
 				res.Outcome += ":" + NormErr(ctx.err)
@@ -420,7 +427,9 @@ func RunE1(env *Env, job *E1Job) *E1Res {
 
 		// C02: also decides divergence
 		ph.Name = "oracle C02"
-		if job.Level == "archive" {
+		if job.Level == "raw" {
+			res.Diverged = false
+		} else if job.Level == "archive" {
 			var why string
 			res.Diverged, why = ctx.divergedFlat()
 			if res.Diverged {
@@ -460,7 +469,18 @@ func RunE1(env *Env, job *E1Job) *E1Res {
 			ctx.oracleC12()
 		}
 		align := (len(ctx.postTape) / 512) % st.Cfg.RecordSize
-		res.Key = hashKey(m.Key(), rowsKey(liveRows), rebuiltKey, fmt.Sprint(align))
+		hk := ""
+		for slot := 0; slot < 4; slot++ {
+			if h := st.Handles[slot]; h != nil {
+				hk += fmt.Sprintf("h%d:%s:%d:r%v:w%v;", slot, h.Path, h.Flags, h.Reads > 0, h.Writes > 0)
+			}
+		}
+		res.Key = hashKey(m.Key(), rowsKey(liveRows), rebuiltKey, fmt.Sprint(align), hk)
+		// release handles that are still open so that their goroutines and descriptors go away
+		ph.Name = "cleanup"
+		for _, h := range st.Handles {
+			_, _ = Guard(func() error { return h.F.Close() })
+		}
 	})
 	res.Info = info
 	if info.Hang != nil {
